@@ -29,7 +29,7 @@ CHECKS = {
          "DESIGN.md 6.C19", "E1"),
  "C17": ("model_checking",
          "explicit-state BFS to closure over the product (real queue registers, reference list); one fresh elaboration + history replay per transition",
-         "Every RTL queue of stdlib/queues/queues.py, enrdy_queues.py and stream/queues.py and every CL queue, capacities 1..3 (4 thorough), messages {1,2,3} "
+         "Every RTL queue of stdlib/queues/queues.py, enrdy_queues.py and stream/queues.py and every CL queue, capacities 1..3 (6 thorough), messages {1,2,3} "
          "and a struct entry type, is driven by every protocol-legal (enq offer, msg, deq offer) letter from every reachable state; rdy/val, delivered message, "
          "fire signals and count are compared with a list model each cycle.",
          "Trusted: vt/fifo.py (40 lines) and the en/rdy clipping loop of the harness. valrdy_queues.py is unimportable on this tree and therefore not covered. "
